@@ -27,11 +27,13 @@ pub trait SecondaryIteratorImpl {}
 /// To achieve this, we must enable GAT.
 pub struct SecondaryTableTxnIterator {
     iter: SecondaryIterator,
+    /// The number of leading columns to return (the scan may read sort key columns in addition).
+    columns: usize,
 }
 
 impl SecondaryTableTxnIterator {
-    pub(super) fn new(iter: SecondaryIterator) -> Self {
-        Self { iter }
+    pub(super) fn new(iter: SecondaryIterator, columns: usize) -> Self {
+        Self { iter, columns }
     }
 }
 
@@ -58,10 +60,19 @@ impl TxnIterator for SecondaryTableTxnIterator {
     ) -> StorageResult<Option<DataChunk>> {
         #[cfg(feature = "verif")]
         crate::verif::point("scan.next").await;
-        Ok(self
-            .iter
-            .next_batch(expected_size)
-            .await?
-            .map(|x| x.to_data_chunk()))
+        Ok(self.iter.next_batch(expected_size).await?.map(|x| {
+            let chunk = x.to_data_chunk();
+            if chunk.column_count() > self.columns {
+                let rows = chunk.cardinality();
+                let arrays = chunk.arrays()[..self.columns].to_vec();
+                if arrays.is_empty() {
+                    DataChunk::no_column(rows)
+                } else {
+                    arrays.into_iter().collect()
+                }
+            } else {
+                chunk
+            }
+        }))
     }
 }
